@@ -10,9 +10,8 @@ def withS (a : String) (f : Str → String) : String :=
 /-- `lic.canon s`: the model of `canonicalize_license_expression` -/
 def opCanon : List String → String
   | [a] => withS a fun s => match Lic.canon s with
-      | .ok r => "ok " ++ encS r
-      | .error .invalid => "err InvalidLicenseExpression"
-      | .error .keyError => "raw KeyError"
+      | some r => "ok " ++ encS r
+      | none => "err InvalidLicenseExpression"
   | _ => "bad-op"
 
 /-- `s.lic.canon s`: the reference semantics (`Spdx.WF` / `Spdx.canon` on `Spdx.lex s`) -/
@@ -22,24 +21,7 @@ def opSpec : List String → String
       | none => "err InvalidLicenseExpression"
   | _ => "bad-op"
 
-def ptok (c : Char) : Option Lic.PTok :=
-  if c == 'F' then some .F else if c == 'a' then some .and else if c == 'o' then some .or
-  else if c == '(' then some .lp else if c == ')' then some .rp else none
-
-/-- `lic.eval skeleton`: skeleton written with `F a o ( )`; `-` is the empty skeleton -/
-def opEval : List String → String
-  | [a] =>
-    let cs := if a == "-" then [] else a.toList
-    match cs.mapM ptok with
-    | none => "bad-arg"
-    | some ts => (match Lic.pyEval ts with
-        | none => "err SyntaxError"
-        | some .e => "err TypeError"
-        | some .f => "False"
-        | some .t => "()")
-  | _ => "bad-op"
-
 def ops : List (String × (List String → String)) :=
-  [ ("lic.canon", opCanon), ("s.lic.canon", opSpec), ("lic.eval", opEval) ]
+  [ ("lic.canon", opCanon), ("s.lic.canon", opSpec) ]
 
 end DriverLic
